@@ -10,7 +10,8 @@
 //!   bytes = the input, decimal, space separated
 //!   tree  = pre-order events of the implementation's tree: `S<kind>` node start, `T` token, `E` node end
 //!           (empty when the parser panicked)
-//!   repl  = replacement requests `index:hextext` (token index in textual order), comma separated
+//!   repl  = replacement requests `index:hextext|-:trivia|-` (token index in textual order; new text or `-` = keep;
+//!           new leading trivia in the notation of the token dumps or `-` = keep), comma separated
 //! impl_out: per case  `flags|raw|stream|offsets|errors|identity|repl|panic`  (panic = location and message of the first panic)
 //!   flags    = letters of violated oracle clauses (see `oracle`), `-` if none
 //!   raw      = tokens of `bytes.tokenize()`:            `kind,texthex,trivia,err` joined by `;`
@@ -31,7 +32,8 @@ use vhdl_syntax::syntax::node::{SyntaxElement, SyntaxNode, SyntaxToken};
 use vhdl_syntax::syntax::rewrite::{RewriteAction, TokenRewrite, TokenRewriteAction, TokenRewriter};
 use vhdl_syntax::syntax::AstNode;
 use vhdl_syntax::tokens::tokenizer::{LexErr, LexErrKind, LexErrPos, Tokenize, UnterminatedKind};
-use vhdl_syntax::tokens::{Token, TokenKind, TokenStream, TriviaPiece};
+use vhdl_syntax::tokens::trivia_piece::Comment;
+use vhdl_syntax::tokens::{Token, TokenKind, TokenStream, Trivia, TriviaPiece};
 
 static LAST_PANIC: std::sync::Mutex<String> = std::sync::Mutex::new(String::new());
 
@@ -213,18 +215,41 @@ impl TokenRewrite for Keep {
 struct ReplaceNth<'a> {
     n: usize,
     target: usize,
-    text: &'a [u8],
+    make: &'a dyn Fn(&SyntaxToken) -> SyntaxToken,
 }
 impl<'a> TokenRewrite for ReplaceNth<'a> {
     fn token(&mut self, t: &SyntaxToken) -> TokenRewriteAction {
         let k = self.n;
         self.n += 1;
         if k == self.target {
-            TokenRewriteAction::Replace(t.clone_with_text(self.text))
+            TokenRewriteAction::Replace((self.make)(t))
         } else {
             TokenRewriteAction::Keep
         }
     }
+}
+
+/// trivia in the notation of `piece_str`, pieces joined by `.`
+fn parse_trivia(spec: &str) -> Trivia {
+    let mut v = Vec::new();
+    for p in spec.split('.').filter(|x| !x.is_empty()) {
+        let (c, rest) = p.split_at(1);
+        let n = || rest.parse::<usize>().unwrap();
+        v.push(match c {
+            "H" => TriviaPiece::HorizontalTabs(n()),
+            "V" => TriviaPiece::VerticalTabs(n()),
+            "R" => TriviaPiece::CarriageReturns(n()),
+            "W" => TriviaPiece::CarriageReturnLineFeeds(n()),
+            "L" => TriviaPiece::LineFeeds(n()),
+            "F" => TriviaPiece::FormFeeds(n()),
+            "S" => TriviaPiece::Spaces(n()),
+            "N" => TriviaPiece::NonBreakingSpaces(n()),
+            "c" => TriviaPiece::LineComment(Comment::new(unhex(rest))),
+            "b" => TriviaPiece::BlockComment(Comment::new(unhex(rest))),
+            _ => panic!("bad trivia piece {}", p),
+        });
+    }
+    Trivia::from(v)
 }
 
 fn printed(n: &SyntaxNode) -> Vec<u8> {
@@ -234,6 +259,8 @@ fn printed(n: &SyntaxNode) -> Vec<u8> {
 }
 
 const REPL_TEXTS: [&[u8]; 4] = [b"zz", b"", b"\"a b\"", b"Q_9\xe9"];
+/// replacement trivia (see `parse_trivia`): none, one space, newline + indentation, a line comment, a block comment, CRLF + tab
+const REPL_TRIVIA: [&str; 6] = ["", "S1", "L1.S2", "S1.c2078.L1", "b2078.S1", "W1.H1"];
 
 /// Runs the implementation on one input; returns (case line, impl line).
 /// Inputs above this size are not run through the extracted model (quadratic list model): their token and
@@ -365,13 +392,20 @@ fn run_case(input: &[u8], rng: &mut Rng, fixed_repl: Option<&str>, label: Option
                 }
             }
             lap!("identity");
-            // single-token replacements
+            // single-token replacements: the text only (clone_with_text), the leading trivia only
+            // (clone_with_leading_trivia) or both, through both rewriting interfaces
             let nt = w.leaves.len();
-            let mut reqs: Vec<(usize, Vec<u8>)> = Vec::new();
+            // (token index, new text or None = keep, new trivia spec or None = keep)
+            let mut reqs: Vec<(usize, Option<Vec<u8>>, Option<String>)> = Vec::new();
             if let Some(f) = fixed_repl {
                 for r in f.split(',').filter(|x| !x.is_empty()) {
-                    let (i, h) = r.split_once(':').unwrap();
-                    reqs.push((i.parse().unwrap(), unhex(h)));
+                    let p: Vec<&str> = r.split(':').collect();
+                    let idx = p[0].parse().unwrap();
+                    if p.len() == 2 {
+                        reqs.push((idx, Some(unhex(p[1])), None));
+                    } else {
+                        reqs.push((idx, if p[1] == "-" { None } else { Some(unhex(p[1])) }, if p[2] == "-" { None } else { Some(p[2].to_string()) }));
+                    }
                 }
             } else if nt > 0 {
                 let mut idx: Vec<usize> = if nt <= 6 { (0..nt).collect() } else if big { vec![nt - 1] } else { vec![0, nt - 1, nt - 2] };
@@ -380,56 +414,88 @@ fn run_case(input: &[u8], rng: &mut Rng, fixed_repl: Option<&str>, label: Option
                         idx.push(rng.below(nt));
                     }
                 }
-                for i in idx {
-                    reqs.push((i, REPL_TEXTS[rng.below(REPL_TEXTS.len())].to_vec()));
+                for (k, i) in idx.into_iter().enumerate() {
+                    // the first request of every input is a trivia-only change
+                    let mode = if k == 0 { 1 } else { rng.below(3) };
+                    let text = if mode != 1 { Some(REPL_TEXTS[rng.below(REPL_TEXTS.len())].to_vec()) } else { None };
+                    let triv = if mode != 0 { Some(REPL_TRIVIA[rng.below(REPL_TRIVIA.len())].to_string()) } else { None };
+                    reqs.push((i, text, triv));
                 }
             }
             let mut rq = Vec::new();
             let mut rs = Vec::new();
             let mut local_bad = false;
-            for (i, text) in &reqs {
-                rq.push(format!("{}:{}", i, hex(text)));
+            for (k, (i, text, triv)) in reqs.iter().enumerate() {
+                rq.push(format!("{}:{}:{}", i, text.as_ref().map(|t| if t.is_empty() { "".to_string() } else { hex(t) }).unwrap_or_else(|| "-".to_string()), triv.clone().unwrap_or_else(|| "-".to_string())));
                 if *i >= nt {
                     rs.push("-,-".to_string());
                     continue;
                 }
-                // expected: only the bytes of the token's text change (positions from the token stream)
+                // expected: only the bytes of this token change: [offset, text start) is its leading trivia,
+                // [text start, end) its text
                 let tok = &w.leaves[*i];
                 let tr = tok.text_range();
-                let expected: Option<Vec<u8>> = if tr.start <= tr.end && tr.end <= input.len() {
-                    let mut v = input[..tr.start].to_vec();
-                    v.extend_from_slice(text);
+                let off = tok.offset();
+                let new_trivia: Option<Trivia> = triv.as_ref().map(|t| parse_trivia(t));
+                let expected: Option<Vec<u8>> = if off <= tr.start && tr.start <= tr.end && tr.end <= input.len() {
+                    let mut v = input[..off].to_vec();
+                    match &new_trivia {
+                        Some(t) => t.write_to(&mut v).unwrap(),
+                        None => v.extend_from_slice(&input[off..tr.start]),
+                    }
+                    match text {
+                        Some(t) => v.extend_from_slice(t),
+                        None => v.extend_from_slice(&input[tr.start..tr.end]),
+                    }
                     v.extend_from_slice(&input[tr.end..]);
                     Some(v)
                 } else {
                     None
                 };
+                let make = |t: &SyntaxToken| -> SyntaxToken {
+                    let t1 = match text {
+                        Some(x) => t.clone_with_text(x.as_slice()),
+                        None => t.clone(),
+                    };
+                    match &new_trivia {
+                        Some(tv) => t1.clone_with_leading_trivia(tv.clone()),
+                        None => t1,
+                    }
+                };
                 let a = catch_unwind(AssertUnwindSafe(|| {
-                    printed(&TokenRewriter::new(ReplaceNth { n: 0, target: *i, text }).rewrite(root.clone()))
+                    TokenRewriter::new(ReplaceNth { n: 0, target: *i, make: &make }).rewrite(root.clone())
                 }));
                 let b = catch_unwind(AssertUnwindSafe(|| {
                     let mut n = 0usize;
-                    printed(&root.rewrite(|el| match el {
+                    root.rewrite(|el| match el {
                         SyntaxElement::Token(t) => {
                             let k = n;
                             n += 1;
                             if k == *i {
-                                RewriteAction::Change(SyntaxElement::Token(t.clone_with_text(text.as_slice())))
+                                RewriteAction::Change(SyntaxElement::Token(make(t)))
                             } else {
                                 RewriteAction::Leave
                             }
                         }
                         SyntaxElement::Node(_) => RewriteAction::Leave,
-                    }))
+                    })
                 }));
                 let mut one = Vec::new();
                 for r in [&a, &b] {
                     match r {
-                        Ok(v) => {
-                            if expected.as_ref() != Some(v) {
+                        Ok(nr) => {
+                            let v = printed(nr);
+                            if expected.as_ref() != Some(&v) || nr.byte_len() != v.len() {
                                 local_bad = true;
                             }
-                            one.push(digest(v));
+                            // offsets of the new tree tile the new text (every request of short inputs, else the first)
+                            if (k == 0 || input.len() <= 300) && !big {
+                                let mut w2 = Walk { input: &v, events: String::new(), offsets: String::new(), leaves: vec![], tile_bad: false, slice_bad: false };
+                                if catch_unwind(AssertUnwindSafe(|| w2.node(nr))).is_err() || w2.tile_bad || w2.slice_bad {
+                                    local_bad = true;
+                                }
+                            }
+                            one.push(digest(&v));
                         }
                         Err(_) => {
                             local_bad = true;
@@ -475,7 +541,7 @@ const WORDS: &[&[u8]] = &[
     b"group", b"a", b"b", b"work", b"e", b"t", b"0", b"1", b"12", b"1.5", b"1e3", b"2#1#", b"16:ff:", b"1:", b"ub\"01\"", b"10ub\"0\"",
     b"'a'", b"'", b"''", b"\"s\"", b"\"", b"\\x\\", b"?<", b"?<=", b"?>", b"?>=", b"/=", b"**", b"*", b"/", b"+", b"-", b"&", b",",
     b"<", b">", b"<>", b">=", b"=", b"[", b"]", b"$", b"_", b"\r\n", b"-- c\n", b"/* c */", b"disconnect", b"force", b"release",
-    b"private", b"vpgk", b"vunit",
+    b"private", b"vpgk", b"vpkg", b"assume_guarantee", b"restrict_guarantee", b"vunit",
 ];
 
 const DECL: &str = "package p is\n  constant c : integer := ";
